@@ -153,6 +153,14 @@ class Cwd(object):
 
 
 def check(case):
+    # the model prints a diagnostic for Examples sections without a table whenever an outline's rows are built
+    import contextlib
+    import io
+    with contextlib.redirect_stdout(io.StringIO()):
+        return _check(case)
+
+
+def _check(case):
     res = CaseResult()
     kind = case["kind"]
     if kind == "lines":
@@ -256,6 +264,9 @@ def check_lines(res, case):
                 res.label("scenario-names-not-unique")
             if feat.get("noise"):
                 res.label("noise")
+            if any(ex.get("notable") for it in feat["items"] for sub in (it["items"] if it["k"] == "r" else [it])
+                   if sub["k"] == "o" for ex in sub["ex"]):
+                res.label("examples-section-without-table")
     finally:
         proj.close()
 
@@ -395,12 +406,32 @@ def check_name(res, case):
         res.label("name:none")
         return
     prog["cfg"] = {"names": names}
-    run = run_program(prog)
+    suffix = u" [chrome, attempt 1]"
+
+    def decorate(kind, name, context, arg):
+        # the before_scenario hook decorates the scenario's name for the reports: the selection was made on
+        # the name as written in the file
+        if kind == "hook" and name == "before_scenario" and not arg.name.endswith(suffix):
+            arg.name = arg.name + suffix
+    run = run_program(prog, observers=[decorate] if case.get("decorate") else None)
     if run.escaped is not None:
         res.fail("C10.name.escape", "run() raised %r" % (run.escaped,))
         return
     want = set(i["name"] for i in insts if any(re.search(p, i["name"]) for p in names))
-    ran = set(n for n, _u in run.calls)
+    ran = set((n[:-len(suffix)] if n and n.endswith(suffix) else n) for n, _u in run.calls)
+    if case.get("decorate"):
+        res.label("name:hook-decorates-the-name")
+        for sc in run.ran_scenarios:
+            if sc.name.endswith(suffix):
+                sc.name = sc.name[:-len(suffix)]
+    from ..program import all_steps_of
+    unique = set(n for n in want if [i["name"] for i in insts].count(n) == 1)
+    from ..program import step_outcome
+    with_steps = set(i["name"] for f in prog["features"] for i in scenario_instances(f)
+                     if all_steps_of(f, i) and step_outcome(all_steps_of(f, i)[0], i["rowdict"]) != "undefined")
+    if (unique & with_steps) - ran:
+        res.fail("C10.name.not-executed", "--name %s: %s selected but none of their steps ran"
+                 % (names, sorted((unique & with_steps) - ran)))
     hooked = set(ident for h, ident in run.hooks if h == "before_scenario")
     if hooked != want:
         res.fail("C10.name.selection", "--name %s: scenarios started %s, expected %s" % (names, sorted(hooked), sorted(want)))
@@ -437,6 +468,13 @@ def doc_program(draw, nfeatures=1, min_items=1):
             # @setup / @teardown on a rule or the feature: only a scenario's OWN tag exempts it from the selection
             target = draw(st.sampled_from([f] + [it for it in f["items"] if it["k"] == "r"]))
             target["tags"] = list(target["tags"]) + [draw(st.sampled_from(["setup", "teardown"]))]
+        if draw(st.integers(0, 3)) == 0:
+            # a draft "Examples:" section without any table inside an outline (tolerated: contributes no rows)
+            for item in f["items"]:
+                for sub in (item["items"] if item["k"] == "r" else [item]):
+                    if sub["k"] == "o" and sub["ex"] and draw(st.booleans()):
+                        sub["ex"].insert(draw(st.integers(0, len(sub["ex"]))),
+                                         {"tags": [], "cols": [], "rows": [], "name": u"draft", "notable": True})
         if draw(st.booleans()):
             f["noise"] = draw(st.lists(st.integers(0, 200), min_size=1, max_size=8))
         if draw(st.booleans()):
@@ -497,10 +535,11 @@ def locparse_case():
 
 
 def name_case():
-    return st.builds(lambda p, pats: {"kind": "name", "program": p, "patterns": pats},
+    return st.builds(lambda p, pats, deco: {"kind": "name", "program": p, "patterns": pats, "decorate": deco},
                      doc_program(nfeatures=2),
                      st.lists(st.tuples(st.sampled_from(["exact", "sub", "prefix", "class"]), st.integers(0, 30),
-                                        st.integers(0, 30)).map(list), min_size=1, max_size=3))
+                                        st.integers(0, 30)).map(list), min_size=1, max_size=3),
+                     st.sampled_from([False, False, True]))
 
 
 def explore(rec):
@@ -515,7 +554,8 @@ def required_labels(tier):
     return ["entity:feature", "entity:rule", "entity:outline", "entity:row", "entity:scenario", "setup/teardown",
             "noise", "all-pairs(doc<=12)", "run-sample", "via-listfile:subdir", "via-listfile:cwd", "via-args",
             "listfile:indented-entry", "files:2", "locparse", "name", "name:row-selected", "scenario-names-not-unique",
-            "via-args:glob-characters-in-file-name", "run-sample:auto-retry", "list:file-named-again-later", "via-args:directory-next-to-locations"]
+            "via-args:glob-characters-in-file-name", "run-sample:auto-retry", "list:file-named-again-later", "via-args:directory-next-to-locations",
+            "examples-section-without-table", "name:hook-decorates-the-name"]
 
 
 def _f12(case, detail, info):
@@ -526,3 +566,5 @@ KNOWN_PREDICATES = {}
 
 
 RULE = RULE + " " + ('Scenarios are identified by their line (names need not be unique: equally named scenarios / outlines are generated).')
+RULE = RULE + " " + ('A quarter of the documents put a draft Examples section without any table into their outlines (contributes no rows; the selection of the other rows is unaffected).')
+RULE = RULE + " " + ('In a third of the --name cases the before_scenario hook decorates the scenario name at run time: selection is by the name as written; every selected scenario with steps has its steps executed.')
